@@ -50,3 +50,15 @@ func (v VerifChannel) SchedRequestID() uint32 {
 	defer v.S.requestIDMu.Unlock()
 	return v.S.requestID
 }
+
+// SchedTakeSequenceNumber takes the next sequence number of the active instance, as sending a chunk would
+// (for harnesses that write a hand-made chunk on the connection of this channel).
+func (v VerifChannel) SchedTakeSequenceNumber() uint32 {
+	i, err := v.S.getActiveChannelInstance()
+	if err != nil {
+		return 0
+	}
+	i.Lock()
+	defer i.Unlock()
+	return i.nextSequenceNumber()
+}
